@@ -124,7 +124,10 @@ theorem encrypt_pad (H : Bytes → Bytes) (E D : Bytes → Bytes → Bytes)
     simp [padZero, padAmount_eq]
   have hpos : 16 ≤ (padZero msg).length := by rw [hpl]; omega
   refine ⟨k, v, igeEncBytes (E k) v (padZero msg), hkv, ?_, by rw [hpz], ?_, ?_⟩
-  · simp only [encryptMsg, hkv]
+  · have hg : keysG H (messageKey H msg) key false = .ok (k, v) := by
+      unfold keysG
+      rw [if_neg (by simp; omega), hkv]
+    simp only [encryptMsg, hg]
     rw [doEncrypt_spec (E k) v (padZero msg) _ hpos hpm (by simp)]
   · rw [igeEncBytes_length (E k) (D k) (hc k) v _ hv hpm, hpl]
   · rw [igeDecBytes_igeEncBytes (E k) (D k) (hc k) v _ hv hpm, hpz]
@@ -141,13 +144,16 @@ theorem decrypt_msg (H : Bytes → Bytes) (D : Bytes → Bytes → Bytes) (hH : 
       (0 < ct.length → ct.length % 16 = 0 → decryptMsg H D ct key msgKey = .ok (igeDecBytes (D aesKey) aesIV ct)) ∧
       (ct.length = 0 ∨ ct.length % 16 ≠ 0 → ∃ e, decryptMsg H D ct key msgKey = .err e) := by
   obtain ⟨k, v, hkv, _⟩ := generateAESIGE_ok H hH msgKey key true hk
+  have hg : keysG H msgKey key true = .ok (k, v) := by
+    unfold keysG
+    rw [if_neg (by simp; omega), hkv]
   refine ⟨k, v, hkv, ?_, ?_⟩
   · intro h1 h2
-    simp only [decryptMsg, hkv]
+    simp only [decryptMsg, hg]
     rw [doDecrypt_spec (D k) v ct _ (by omega) h2 (by simp)]
   · intro h
     obtain ⟨e, he⟩ := isCorrectData_some h
-    exact ⟨errName e, by simp [decryptMsg, hkv, doDecrypt, he]⟩
+    exact ⟨errName e, by simp [decryptMsg, hg, doDecrypt, he]⟩
 
 example : (∀ x, (lenHash x).length = 20) ∧ 136 ≤ (zeros 256).length := ⟨lenHash_length, by simp⟩
 
